@@ -2,10 +2,12 @@ package main
 
 import (
 	"fmt"
+	"go/ast"
 	"go/token"
 	"go/types"
 	"strings"
 
+	"golang.org/x/tools/go/ast/astutil"
 	"golang.org/x/tools/go/ssa"
 )
 
@@ -200,7 +202,42 @@ func isInitStore(fa *FuncAnalysis, st *ssa.Store) bool {
 	}
 	// the zero value: an untouched local, or one that was just assigned the zero value as a whole (go/ssa builds
 	// `x = T{..}` for an existing x as `*x = zero` followed by the field stores)
-	return t.Op == "zero" || (t.Op == "const" && t.Name == "nil")
+	if t.Op == "zero" || (t.Op == "const" && t.Name == "nil") {
+		return true
+	}
+	// ... and without the zero store when the literal names every field of T: the store then sits, in the source, inside
+	// a composite literal of the struct's type (an assignment `x.f = v` does not)
+	if f, ok := st.Addr.(*ssa.FieldAddr); ok {
+		return fa.e.inCompositeLitOf(st.Pos(), typeKey(f.X.Type()))
+	}
+	return false
+}
+
+// inCompositeLitOf: the source position lies inside a composite literal whose type is the named struct type.
+func (e *Engine) inCompositeLitOf(pos token.Pos, typ string) bool {
+	if !pos.IsValid() {
+		return false
+	}
+	for _, p := range e.Pkgs {
+		if p.TypesInfo == nil {
+			continue
+		}
+		for _, f := range p.Syntax {
+			if pos < f.Pos() || pos >= f.End() {
+				continue
+			}
+			path, _ := astutil.PathEnclosingInterval(f, pos, pos)
+			for _, n := range path {
+				if cl, ok := n.(*ast.CompositeLit); ok {
+					if t := p.TypesInfo.TypeOf(cl); t != nil && typeKey(t) == typ {
+						return true
+					}
+				}
+			}
+			return false
+		}
+	}
+	return false
 }
 
 // Complits returns the composite-literal allocations of the named struct type in fn.
